@@ -818,3 +818,27 @@ def method_table_units_with_replay():
 
 MT_UNITS = method_table_units_with_replay()
 UNITS += MT_UNITS
+
+
+# ------------------------------------------------------------------------------ Molecule.update_umi: the representative UMI
+# hash-mode assignment compares a candidate with the molecule's representative UMI; `_add_fragment` units use update_umi
+# through a hook: here it is the most frequent UMI of the molecule's fragments
+def umi_self(counts):
+    def mk(eng, name):
+        from pyvc import externals
+        c = externals.CounterDict()
+        c.update(counts)
+        return Obj('Molecule', {'umi_counter': c, 'umi': None}, info=eng.loader.classref(FM, 'Molecule'))
+    return mk
+
+
+update_umi = Contract(
+    PROP, FM + '::Molecule.update_umi', name='Molecule.update_umi[the most frequent UMI represents the molecule]',
+    params={'self': umi_self({'AAA': 2, 'CCC': 1})},
+    cases=[{}, {'self': umi_self({'AAA': 1, 'CCC': 3})}, {'self': umi_self({'GGG': 1})}, {'self': umi_self({'AAA': 2, 'CCC': 2, 'TTT': 1})}],
+    ensures={'representative_is_a_most_frequent_umi':
+             'self.umi in self.umi_counter and all(self.umi_counter[self.umi] >= self.umi_counter[u] for u in self.umi_counter)'},
+    raises={},
+    bounded='counters of 1-3 UMIs with concrete counts',
+)
+UNITS.append(update_umi)
